@@ -29,7 +29,7 @@ META = {
     "design_ref": "DESIGN.md section 4, C04",
 }
 
-ALL_KINDS = ["msg", "namew", "rdw", "optw", "namet", "rdt", "ttl", "zone", "msgt"]
+ALL_KINDS = ["msg", "namew", "rdw", "optw", "optm", "namet", "rdt", "rdg", "ttl", "zone", "msgt"]
 GEN_CFG = """INIT Init
 NEXT Next
 VIEW View
@@ -57,7 +57,7 @@ def finish_job(job, table_by_key):
         job.update(cls=sp["cls"], type=sp["type"], rdlen=job["len"])
     elif k == "optw" and "code" not in job:
         job.update(code=table_by_key["opt"][job["base"]]["code"], olen=job["len"])
-    elif k == "rdt" and "cls" not in job:
+    elif k in ("rdt", "rdg") and "cls" not in job:
         sp = table_by_key["rd"][job["base"]]
         job.update(cls=sp["cls"], type=sp["type"])
     if k in ("rdw", "optw") and "len" not in job:
@@ -124,7 +124,7 @@ def classify(tr, line, clause):
             return "C04-zone-without-origin:check_origin:AssertionError"
         if kind == "rdt" and tr.get("type") == "WKS" and "hang" in e.get("out", []):
             return "C04-wks-unbounded-port:hang"
-        return "%s:%s:%s:%s:%s" % (clause, op, cls, tr.get("type", tr.get("base", "-")) if kind in ("rdw", "rdt", "optw") else kind,
+        return "%s:%s:%s:%s:%s" % (clause, op, cls, tr.get("type", tr.get("base", "-")) if kind in ("rdw", "rdt", "rdg", "optw", "optm") else kind,
                                    fault_names(tr))
     return "%s:%s:%s:%s" % (clause, op, kind, fault_names(tr))
 
